@@ -411,3 +411,17 @@ def add_growth(ns, prob=0.25):
     ns.update({"gen": gen, "impl": impl, "model_lines": model_lines, "judge": judge})
     if oracle0: ns["oracle"] = oracle
     ns["RULE"] = ns.get("RULE", "") + "; on %d%% of the cases a growth history: all calls on one graph object, add_edge on that object, all calls again" % int(prob * 100)
+
+
+def arith_divisor(G, D, rng, graph=None):
+    """the divisor D on G, obtained as the RESULT of divisor arithmetic (k*H + R, A - B, -(-D)) instead of a constructor call"""
+    how = rng.choice(["mul", "mul", "sub", "neg"])
+    if how == "mul":
+        k = rng.choice([2, 3, -1, -2]); H = [x // k for x in D]; R = [x - k * h for x, h in zip(D, H)]
+        h = build_impl_divisor(G, H, graph=graph, rng=rng); r = build_impl_divisor(G, R, graph=h.graph, rng=rng); d = k * h + r
+    elif how == "sub":
+        A = [rng.randint(-5, 5) for _ in D]; a = build_impl_divisor(G, [x + y for x, y in zip(D, A)], graph=graph, rng=rng); b = build_impl_divisor(G, A, graph=a.graph, rng=rng); d = a - b
+    else:
+        d = -build_impl_divisor(G, [-x for x in D], graph=graph, rng=rng)
+    assert div_to_list(G, d) == list(D), "harness: arithmetic did not produce the intended divisor (C12 reports that)"
+    return d
